@@ -38,3 +38,51 @@ Proof. vm_compute. reflexivity. Qed.
 Theorem C13_quantizer_configs_complete :
   rejects_covered [] gen_classes = true /\ gaps_covered [] gen_classes = true.
 Proof. split; vm_compute; reflexivity. Qed.
+
+(* ---- how the quantized LAYER classes serialise their quantizers (coq/gen/LayerMeta.v, regenerated from the eight layer modules on
+   every run by tools/translate/layermeta.py) ---- *)
+From QVGen Require Import LayerMeta.
+Definition suffixb (suf s : string) : bool :=
+  let n := String.length suf in let m := String.length s in
+  Nat.leb n m && String.eqb (substring (m - n) n s) suf.
+Definition lrow := (string * string * bool * list string * list (string * string * string))%type.
+Definition l_name (r : lrow) : string := let '(n, _, _, _, _) := r in n.
+Definition l_base (r : lrow) : string := let '(_, b, _, _, _) := r in b.
+Definition l_qparams (r : lrow) : list string := let '(_, _, _, q, _) := r in q.
+Definition l_keys (r : lrow) : list (string * string * string) := let '(_, _, _, _, k) := r in k.
+Definition find_class (n : string) : option lrow := find (fun r => String.eqb (l_name r) n) gen_layer_configs.
+(* keys of a class and of its quantized base classes (QConv2DBatchnorm -> QConv2D): two levels are enough for the library *)
+Definition keys_with_bases (r : lrow) : list string :=
+  map (fun k => fst (fst k)) (l_keys r) ++
+  match find_class (l_base r) with
+  | Some b => map (fun k => fst (fst k)) (l_keys b) ++
+              match find_class (l_base b) with Some b2 => map (fun k => fst (fst k)) (l_keys b2) | None => [] end
+  | None => []
+  end.
+Definition quantizer_params_are_keys (r : lrow) : bool :=
+  forallb (fun p => negb (suffixb "_quantizer" p) || mem p (keys_with_bases r)) (l_qparams r).
+Definition own_attribute (k form attr : string) : bool :=
+  negb (String.eqb form "other") && (String.eqb attr k || String.eqb attr (k ++ "_internal")).
+Definition quantizer_keys_read_own_attribute (r : lrow) : bool :=
+  forallb (fun e => let '(k, form, attr) := e in
+                    if suffixb "_quantizer" k || String.eqb k "quantizer" then own_attribute k form attr
+                    else if String.eqb k "activation" then
+                      (* QAdaptiveActivation stores the NAME of the quantizer class it builds itself; every other class its activation attribute *)
+                      own_attribute k form attr || (String.eqb (l_name r) "QAdaptiveActivation" && String.eqb attr "self.quantizer.__class__.__name__")
+                    else true) (l_keys r).
+
+Theorem C13_layer_translation_ok : layer_translation_ok = true.
+Proof. reflexivity. Qed.
+(* every quantizer a layer class takes is serialised by that class (or by the quantized class it extends) *)
+Theorem C13_every_layer_quantizer_parameter_is_a_config_key : forallb quantizer_params_are_keys gen_layer_configs = true.
+Proof. vm_compute. reflexivity. Qed.
+(* ... under its OWN key, from its own attribute: no quantizer is written under another one's name, none as a derived text *)
+Theorem C13_every_quantizer_key_reads_its_own_attribute : forallb quantizer_keys_read_own_attribute gen_layer_configs = true.
+Proof. vm_compute. reflexivity. Qed.
+(* the table covers the layer classes of the library *)
+Theorem C13_layer_table_covers_the_library :
+  forallb (fun c => match find_class c with Some _ => true | None => false end)
+    ["QDense"; "QConv1D"; "QConv2D"; "QConv2DTranspose"; "QDepthwiseConv2D"; "QSeparableConv1D"; "QSeparableConv2D"; "QScaleShift";
+     "QAveragePooling2D"; "QGlobalAveragePooling2D"; "QSimpleRNNCell"; "QLSTMCell"; "QGRUCell"; "QSimpleRNN"; "QLSTM"; "QGRU";
+     "QActivation"; "QAdaptiveActivation"; "QBatchNormalization"; "QConv2DBatchnorm"; "QDepthwiseConv2DBatchnorm"] = true.
+Proof. vm_compute. reflexivity. Qed.
